@@ -112,33 +112,37 @@ Record state := mkState {
   st_heap : heap;
   st_open : option N;               (* head of the open-upvalue list *)
   st_log : list (list tval);        (* host log written by the menu natives (auxiliary data) *)
-  st_count : N                      (* ghost: instructions dispatched so far, all nesting levels *)
+  st_count : N;                     (* ghost: instructions dispatched so far, all nesting levels *)
+  st_rem : N                        (* Vm::remaining_iters: the budget left, shared by nested runs *)
 }.
 
 Definition stack_size : nat := 256.
 Definition call_stack_size : nat := 256.
 
 Definition fresh_state : state :=
-  mkState (vs_new VNil stack_size) [] [] [] None [] 0.
+  mkState (vs_new VNil stack_size) [] [] [] None [] 0 0.
 
 Definition set_stack (s : state) (k : vstack value) : state :=
-  mkState k (st_calls s) (st_globals s) (st_heap s) (st_open s) (st_log s) (st_count s).
+  mkState k (st_calls s) (st_globals s) (st_heap s) (st_open s) (st_log s) (st_count s) (st_rem s).
 Definition set_calls (s : state) (c : list frame) : state :=
-  mkState (st_stack s) c (st_globals s) (st_heap s) (st_open s) (st_log s) (st_count s).
+  mkState (st_stack s) c (st_globals s) (st_heap s) (st_open s) (st_log s) (st_count s) (st_rem s).
 Definition set_globals (s : state) (g : list value) : state :=
-  mkState (st_stack s) (st_calls s) g (st_heap s) (st_open s) (st_log s) (st_count s).
+  mkState (st_stack s) (st_calls s) g (st_heap s) (st_open s) (st_log s) (st_count s) (st_rem s).
 Definition set_heap (s : state) (h : heap) : state :=
-  mkState (st_stack s) (st_calls s) (st_globals s) h (st_open s) (st_log s) (st_count s).
+  mkState (st_stack s) (st_calls s) (st_globals s) h (st_open s) (st_log s) (st_count s) (st_rem s).
 Definition set_open (s : state) (o : option N) : state :=
-  mkState (st_stack s) (st_calls s) (st_globals s) (st_heap s) o (st_log s) (st_count s).
+  mkState (st_stack s) (st_calls s) (st_globals s) (st_heap s) o (st_log s) (st_count s) (st_rem s).
 Definition set_log (s : state) (l : list (list tval)) : state :=
-  mkState (st_stack s) (st_calls s) (st_globals s) (st_heap s) (st_open s) l (st_count s).
+  mkState (st_stack s) (st_calls s) (st_globals s) (st_heap s) (st_open s) l (st_count s) (st_rem s).
 Definition tick (s : state) : state :=
-  mkState (st_stack s) (st_calls s) (st_globals s) (st_heap s) (st_open s) (st_log s) (st_count s + 1).
+  mkState (st_stack s) (st_calls s) (st_globals s) (st_heap s) (st_open s) (st_log s) (st_count s + 1) (st_rem s).
+
+Definition set_rem (s : state) (r : N) : state :=
+  mkState (st_stack s) (st_calls s) (st_globals s) (st_heap s) (st_open s) (st_log s) (st_count s) r.
 
 (* RuntimeData::clear (objects are simply forgotten by the model) *)
 Definition clear_state (s : state) : state :=
-  mkState (fst (vs_step VNil (st_stack s) (VClear value))) [] [] (st_heap s) None (st_log s) (st_count s).
+  mkState (fst (vs_step VNil (st_stack s) (VClear value))) [] [] (st_heap s) None (st_log s) (st_count s) (st_rem s).
 
 (* value stack through the Stacks.v model *)
 Definition spush (s : state) (v : value) : option state :=
@@ -168,6 +172,12 @@ Definition spop_w_offset (s : state) (off : nat) : state * value :=
   | (k, OVal v) => (set_stack s k, v)
   | (k, _) => (set_stack s k, VNil)
   end.
+(* ValueStack::peek_last(n) *)
+Definition speek (s : state) (n : nat) : value :=
+  match vs_step VNil (st_stack s) (VPeek value n) with (_, OVal v) => v | _ => VNil end.
+(* ValueStack::pop_n::<n>(): the slots keep their contents *)
+Definition spop_n (s : state) (n : nat) : state :=
+  set_stack s (fst (vs_pop_n VNil (st_stack s) n)).
 (* raw slot access through a pointer into the stack array (open upvalues) *)
 Definition sraw_get (s : state) (i : nat) : value := nth i (vdata (st_stack s)) VNil.
 Definition sraw_set (s : state) (i : nat) (v : value) : state :=
@@ -210,9 +220,10 @@ Definition i64_min : Z := (-9223372036854775808)%Z.
 Definition i64_max : Z := 9223372036854775807%Z.
 Definition in_i64 (z : Z) : bool := (i64_min <=? z)%Z && (z <=? i64_max)%Z.
 Definition wrap_i64 (z : Z) : Z := u64_to_i64 (i64_to_u64 z).
-(* a op b on i64: debug builds panic on overflow (None), release builds wrap *)
+(* a op b on i64: wrapping_add / wrapping_sub / wrapping_mul in every build profile (the pinned tree
+   panicked on overflow in debug builds, finding A-33, repaired by a fix: commit) *)
 Definition i64_result (z : Z) : option Z :=
-  if in_i64 z then Some z else match bld with Debug => None | Release => Some (wrap_i64 z) end.
+  if in_i64 z then Some z else Some (wrap_i64 z).
 
 Definition obj_len (o : obj) : nat :=
   match o with
@@ -408,19 +419,15 @@ Definition tappend (eq : eqfun) (t : table) (v : value) : tres :=
   | Some (Some i) => match tinsert eq t (VInt i) v with Some t' => TOk t' | None => TCrash end
   end.
 
-(* CaoLangTable::pop: the key leaves `keys` first, so `remove` does not find it (A-10) *)
+(* CaoLangTable::pop: the last key leaves `keys` and its entry is removed from the map *)
 Definition tpop (eq : eqfun) (t : table) : option (table * value) :=
   match rev (tkeys t) with
   | [] => Some (t, VNil)
   | key :: _ =>
-      let t1 := mkTable (tmap t) (removelast (tkeys t)) in
-      match tget eq t1 key with
+      match map_find eq key (tmap t) with
       | None => None
-      | Some r =>
-          match tremove eq t1 key with
-          | None => None
-          | Some t2 => Some (t2, match r with Some v => v | None => VNil end)
-          end
+      | Some None => Some (mkTable (tmap t) (removelast (tkeys t)), VNil)
+      | Some (Some (i, v)) => Some (mkTable (remove_nth i (tmap t)) (removelast (tkeys t)), v)
       end
   end.
 
@@ -482,6 +489,9 @@ Fixpoint veq (fuel : nat) (h : heap) (a b : value) : option bool :=
                 end
               else Some false
           | Some (OStr s1), Some (OStr s2) => Some (bytes_eqb s1 s2)
+          | Some (OFun h1 a1), Some (OFun h2 a2) => Some (N.eqb h1 h2 && N.eqb a1 a2)
+          | Some (ONative h1), Some (ONative h2) => Some (N.eqb h1 h2)
+          | Some (OClo _ _ _), Some (OClo _ _ _) | Some (OUp _), Some (OUp _) => Some (N.eqb x y)
           | Some _, Some _ => Some false
           | _, _ => None
           end
@@ -732,12 +742,13 @@ Section RunFunction.
                         match push_frame s1 f with
                         | None => NErr ECallStackOverflow s1
                         | Some s2 =>
+                            (* depth = call_stack.len() - 2; afterwards the call stack is popped back to it,
+                               also when the callee failed *)
+                            let depth := length (st_calls s) in
+                            let unwind (x : state) := set_calls x (skipn (length (st_calls x) - depth) (st_calls x)) in
                             match reenter src s2 with
-                            | ROk s3 =>
-                                (* pop the trap frame, pop the result *)
-                                let s4 := set_calls s3 (tl (st_calls s3)) in
-                                let '(s5, v) := spop s4 in NOk v s5
-                            | RErr e _ s3 => NErr e s3            (* frames stay (A-36) *)
+                            | ROk s3 => let '(s5, v) := spop (unwind s3) in NOk v s5
+                            | RErr e _ s3 => NErr e (unwind s3)
                             | RStop ab s3 => NStop ab s3
                             end
                         end
@@ -769,77 +780,67 @@ Fixpoint to_array_go (eq : eqfun) (t : table) (i : Z) (l : list (value * value))
       end
   end.
 
+(* number of typed parameters (traits.rs: VmFunction1..4; fail0 is a plain closure Fn(&mut Vm)) *)
+Definition native_arity (n : native) : nat :=
+  match n with
+  | NLog1 | NStr1 | NCall0 | NStdToArray => 1
+  | NSub2 | NCall1 | NTry1 | NStdMin | NStdMax | NStdSort => 2
+  | NMix3 => 3
+  | NFail0 => 0
+  end.
+
 (* One body per native. [self] = call_native for native function values reached through run_function.
-   Each pops its parameters last-to-first and converts them (traits.rs). *)
+   traits.rs: the k arguments are PEEKED (they stay on the value stack while the function runs), converted
+   last-to-first, and popped with pop_n::<k> by the caller below when the function has returned. *)
 Definition native_body (self : N -> state -> nres) (n : native) (s : state) : nres :=
-  let h0 := st_heap s in
+  let h := st_heap s in
   match n with
   | NLog1 =>
-      let '(s1, v) := spop s in
-      NOk VNil (log_push s1 [tree_of (st_heap s1) v])
+      let v := speek s 0 in
+      NOk VNil (log_push s [TInt (Z.of_nat (scount s)); TInt (Z.of_nat (length (st_calls s))); tree_of h v])
   | NSub2 =>
-      let '(s1, v2) := spop s in
-      match to_i64 (st_heap s1) v2 with
-      | None => NStop AUB s1
-      | Some b =>
-          let '(s2, v1) := spop s1 in
-          match to_i64 (st_heap s2) v1 with
-          | None => NStop AUB s2
-          | Some a => NOk (VInt (wrap_i64 (a - b))) (log_push s2 [TInt a; TInt b])
-          end
+      match to_i64 h (speek s 0), to_i64 h (speek s 1) with
+      | Some b, Some a => NOk (VInt (wrap_i64 (a - b))) (log_push s [TInt a; TInt b])
+      | _, _ => NStop AUB s
       end
   | NFail0 => NErr EUnimplemented s
   | NStr1 =>
-      let '(s1, v) := spop s in
-      match v with
+      match speek s 0 with
       | VObj a =>
-          match hget (st_heap s1) a with
-          | Some (OStr b) => NOk (VInt (Z.of_nat (length b))) (log_push s1 [TStr b])
-          | Some _ => NErr EInvalidArgument s1
-          | None => NStop AUB s1
+          match hget h a with
+          | Some (OStr b) => NOk (VInt (Z.of_nat (length b))) (log_push s [TStr b])
+          | Some _ => NErr EInvalidArgument s
+          | None => NStop AUB s
           end
-      | _ => NErr EInvalidArgument s1
+      | _ => NErr EInvalidArgument s
       end
   | NMix3 =>
-      let '(s1, v3) := spop s in
-      let '(s2, v2) := spop s1 in
-      match to_i64 (st_heap s2) v2 with
-      | None => NStop AUB s2
-      | Some b =>
-          let '(s3, v1) := spop s2 in
-          match to_f64 (st_heap s3) v1 with
-          | None => NStop AUB s3
-          | Some a => NOk VNil (log_push s3 [TReal (canon_real a); TInt b; tree_of (st_heap s3) v3])
-          end
+      match to_i64 h (speek s 1), to_f64 h (speek s 2) with
+      | Some b, Some a => NOk VNil (log_push s [TReal (canon_real a); TInt b; tree_of h (speek s 0)])
+      | _, _ => NStop AUB s
       end
   | NCall1 =>
-      let '(s1, x) := spop s in
-      let '(s2, f) := spop s1 in
-      match spush s2 x with
-      | None => NErr EStackoverflow s2
-      | Some s3 => run_function self f s3
+      match spush s (speek s 0) with
+      | None => NErr EStackoverflow s
+      | Some s1 => run_function self (speek s 1) s1
       end
   | NTry1 =>
-      let '(s1, x) := spop s in
-      let '(s2, f) := spop s1 in
-      match spush s2 x with
-      | None => NErr EStackoverflow s2
-      | Some s3 =>
-          match run_function self f s3 with
-          | NErr _ s4 => NOk VNil (log_push s4 [TStr name_try1])
+      match spush s (speek s 0) with
+      | None => NErr EStackoverflow s
+      | Some s1 =>
+          match run_function self (speek s 1) s1 with
+          | NErr _ s2 => NOk VNil (log_push s2 [TStr name_try1])
           | r => r
           end
       end
-  | NCall0 =>
-      let '(s1, f) := spop s in
-      run_function self f s1
+  | NCall0 => run_function self (speek s 0) s
   | NStdToArray =>
-      let '(s1, v) := spop s in
+      let v := speek s 0 in
       match v with
       | VObj a =>
-          match hget (st_heap s1) a with
+          match hget h a with
           | Some (OTable t) =>
-              let '(s2, out) := salloc s1 (OTable (mkTable [] [])) in
+              let '(s2, out) := salloc s (OTable (mkTable [] [])) in
               match titer (veq0 (st_heap s2)) t with
               | None => NStop ACrash s2
               | Some l =>
@@ -848,15 +849,16 @@ Definition native_body (self : N -> state -> nres) (n : native) (s : state) : nr
                   | Some t' => NOk (VObj out) (set_heap s2 (hset (st_heap s2) out (OTable t')))
                   end
               end
-          | Some _ => NOk v s1
-          | None => NStop AUB s1
+          | Some _ => NOk v s
+          | None => NStop AUB s
           end
-      | _ => NOk v s1
+      | _ => NOk v s
       end
   | NStdMin | NStdMax | NStdSort => NStop AUnmodelled s
   end.
 
-(* call_native: the Result of the procedure, error wrapped as TaskFailure{name} *)
+(* call_native: the arguments are popped (whatever is on top by then), an error is wrapped as
+   TaskFailure{name}, a result is pushed *)
 Fixpoint call_native_fuel (fuel : nat) (h : N) (s : state) : nres :=
   match fuel with
   | O => NStop ADiverge s
@@ -866,11 +868,12 @@ Fixpoint call_native_fuel (fuel : nat) (h : N) (s : state) : nres :=
       | Some n =>
           match native_body (call_native_fuel f) n s with
           | NOk v s1 =>
+              let s1 := spop_n s1 (native_arity n) in
               match spush s1 v with
               | Some s2 => NOk v s2
               | None => NErr EStackoverflow s1
               end
-          | NErr e s1 => NErr (ETaskFailure (native_name n) e) s1
+          | NErr e s1 => NErr (ETaskFailure (native_name n) e) (spop_n s1 (native_arity n))
           | NStop a s1 => NStop a s1
           end
       end
@@ -1168,10 +1171,11 @@ Definition i_32 (opc ip0 ip : N) (s : state) : sres := (* GetProperty *)
       end
   end.
 
-Definition i_33 (opc ip0 ip : N) (s : state) : sres := (* SetProperty: [key, instance, value] = pop_n::<3>() *)
-  let '(s1, key) := spop s in
-  let '(s2, inst) := spop s1 in
-  let '(s3, v) := spop s2 in
+Definition i_33 (opc ip0 ip : N) (s : state) : sres := (* SetProperty: key, instance, value are peeked, then pop_n::<3>() *)
+  let key := speek s 0 in
+  let inst := speek s 1 in
+  let v := speek s 2 in
+  let s3 := spop_n s 3 in
   match get_table (st_heap s3) inst with
   | TblUb => SStop AUB s3
   | TblNot => SErr EInvalidArgument ip s3
@@ -1314,9 +1318,10 @@ Definition i_38 (opc ip0 ip : N) (s : state) : sres := (* NativeFunctionPointer 
       end
   end.
 
-Definition i_39 (opc ip0 ip : N) (s : state) : sres := (* NthRow: [i, instance] = pop_n::<2>() *)
-  let '(s1, iv) := spop s in
-  let '(s2, inst) := spop s1 in
+Definition i_39 (opc ip0 ip : N) (s : state) : sres := (* NthRow: i, instance are peeked; pop_n::<2>() after the row is built *)
+  let iv := speek s 0 in
+  let inst := speek s 1 in
+  let s2 := spop_n s 2 in
   match get_table (st_heap s2) inst with
   | TblUb => SStop AUB s2
   | TblNot => SErr EInvalidArgument ip s2
@@ -1347,9 +1352,10 @@ Definition i_39 (opc ip0 ip : N) (s : state) : sres := (* NthRow: [i, instance] 
       end
   end.
 
-Definition i_40 (opc ip0 ip : N) (s : state) : sres := (* AppendTable *)
-  let '(s1, inst) := spop s in
-  let '(s2, v) := spop s1 in
+Definition i_40 (opc ip0 ip : N) (s : state) : sres := (* AppendTable: instance, value are peeked, then pop_n::<2>() *)
+  let inst := speek s 0 in
+  let v := speek s 1 in
+  let s2 := spop_n s 2 in
   match get_table (st_heap s2) inst with
   | TblUb => SStop AUB s2
   | TblNot => SErr EInvalidArgument ip s2
@@ -1420,42 +1426,48 @@ Definition i_45 (opc ip0 ip : N) (s : state) : sres := (* RegisterUpvalue *)
           match hget (st_heap s1) ca with
           | Some (OClo ch car cups) =>
               if negb (is_local =? 0)%N then
-                let loc := N.to_nat index in
-                if scount s1 <=? loc then SStop APanic s1      (* as_slice()[index] *)
-                else
-                  match walk_open (S (length (st_heap s1))) (st_heap s1) loc None (st_open s1) with
-                  | WStop a => SStop a s1
-                  | WOk prev cur =>
-                      let same :=
-                        match cur with
-                        | Some a =>
-                            match hget (st_heap s1) a with
-                            | Some (OUp u) => match u_loc u with Some l => l =? loc | None => false end
-                            | _ => false
+                match top_offset s1 with
+                | None => SStop APanic s1
+                | Some off =>
+                    (* the captured local lives in the frame of the function that creates the closure
+                       (the pinned tree indexed the stack absolutely, A-34) *)
+                    let loc := off + N.to_nat index in
+                    if scount s1 <=? loc then SStop APanic s1      (* as_slice()[offset + index] *)
+                    else
+                      match walk_open (S (length (st_heap s1))) (st_heap s1) loc None (st_open s1) with
+                      | WStop a => SStop a s1
+                      | WOk prev cur =>
+                          let same :=
+                            match cur with
+                            | Some a =>
+                                match hget (st_heap s1) a with
+                                | Some (OUp u) => match u_loc u with Some l => l =? loc | None => false end
+                                | _ => false
+                                end
+                            | None => false
+                            end in
+                          if same then
+                            match cur with
+                            | Some a => SNext ip (set_heap s1 (hset (st_heap s1) ca (OClo ch car (cups ++ [a]))))
+                            | None => SStop AUB s1
                             end
-                        | None => false
-                        end in
-                      if same then
-                        match cur with
-                        | Some a => SNext ip (set_heap s1 (hset (st_heap s1) ca (OClo ch car (cups ++ [a]))))
-                        | None => SStop AUB s1
-                        end
-                      else
-                        let '(s2, ua) := salloc s1 (OUp (mkUp (Some loc) VNil None)) in
-                        (* the new node is linked after prev or becomes the head; its own `next` stays
-                           null, so the rest of the list is dropped (A-35) *)
-                        let s3 :=
-                          match prev with
-                          | Some pa =>
-                              match hget (st_heap s2) pa with
-                              | Some (OUp pu) =>
-                                  set_heap s2 (hset (st_heap s2) pa (OUp (mkUp (u_loc pu) (u_val pu) (Some ua))))
-                              | _ => set_open s2 (Some ua)
-                              end
-                          | None => set_open s2 (Some ua)
-                          end in
-                        SNext ip (set_heap s3 (hset (st_heap s3) ca (OClo ch car (cups ++ [ua]))))
-                  end
+                          else
+                            (* the new node is linked after prev or becomes the head, the rest of the list
+                               follows it (the pinned tree left `next` null and lost the rest, A-35) *)
+                            let '(s2, ua) := salloc s1 (OUp (mkUp (Some loc) VNil cur)) in
+                            let s3 :=
+                              match prev with
+                              | Some pa =>
+                                  match hget (st_heap s2) pa with
+                                  | Some (OUp pu) =>
+                                      set_heap s2 (hset (st_heap s2) pa (OUp (mkUp (u_loc pu) (u_val pu) (Some ua))))
+                                  | _ => set_open s2 (Some ua)
+                                  end
+                              | None => set_open s2 (Some ua)
+                              end in
+                            SNext ip (set_heap s3 (hset (st_heap s3) ca (OClo ch car (cups ++ [ua]))))
+                      end
+                end
               else
                 match st_calls s1 with
                 | [] => SStop APanic s1
@@ -1468,7 +1480,6 @@ Definition i_45 (opc ip0 ip : N) (s : state) : sres := (* RegisterUpvalue *)
                             match nth_error fups (N.to_nat index) with
                             | None => SStop APanic s1       (* index out of range *)
                             | Some ua =>
-                                (* re-read the closure: fa may be ca itself *)
                                 SNext ip (set_heap s1 (hset (st_heap s1) ca (OClo ch car (cups ++ [ua]))))
                             end
                         | _ => SStop AUB s1
@@ -1549,54 +1560,68 @@ Definition step (ip0 : N) (s : state) : sres :=
 (* The dispatch loop of `_run`                                         *)
 (* ------------------------------------------------------------------ *)
 
-(* [rem] = value of remaining_iters before the decrement at the top of the loop body (>= 1) *)
-Fixpoint loop (rem : nat) (ip : N) (s : state) : rres :=
+(* `_run`: every dispatch first does  remaining_iters = remaining_iters.saturating_sub(1)  and reports Timeout
+   when that is 0; the counter lives in the VM and is shared with nested runs. [fuel] only makes the recursion
+   structural: every round lowers st_rem by at least one, so fuel >= st_rem at entry is never exhausted.
+   Errors are reported at the address of the failing instruction ([ip], 3933a20); the pinned tree used the
+   address after the operands (A-31). *)
+Fixpoint loop (fuel : nat) (ip : N) (s : state) : rres :=
+  if (code_len <=? ip)%N then RErr EUnexpectedEndOfInput ip s
+  else
+    let s := set_rem s (N.pred (st_rem s)) in
+    if (st_rem s =? 0)%N then RErr ETimeout ip s
+    else
+      match fuel with
+      | O => RStop ADiverge s
+      | S f =>
+          match step ip (tick s) with
+          | SNext ip' s' => loop f ip' s'
+          | SExit s' => ROk s'
+          | SErr e _ s' => RErr e ip s'
+          | SStop a s' => RStop a s'
+          end
+      end.
+
+(* The dispatch loop of the flat semantics (no re-entry): the budget is the structural argument and st_rem is
+   neither read nor written - the subject of budget_monotone. Same [step]. *)
+Fixpoint loop_flat (rem : nat) (ip : N) (s : state) : rres :=
   if (code_len <=? ip)%N then RErr EUnexpectedEndOfInput ip s
   else
     match rem with
-    | O => RStop ADiverge s
+    | O | 1 => RErr ETimeout ip s
     | S r =>
-        match r with
-        | O => RErr ETimeout ip s
-        | S _ =>
-            match step ip (tick s) with
-            | SNext ip' s' => loop r ip' s'
-            | SExit s' => ROk s'
-            | SErr e ip' s' => RErr e ip' s'
-            | SStop a s' => RStop a s'
-            end
+        match step ip (tick s) with
+        | SNext ip' s' => loop_flat r ip' s'
+        | SExit s' => ROk s'
+        | SErr e _ s' => RErr e ip s'
+        | SStop a s' => RStop a s'
         end
     end.
 
 End WithFloat.
 
-(* fuel used for a release-build run with max_instr = 0 (the counter wraps to 2^64 - 1) *)
-Definition wrapped_fuel : nat := 256 * 256.
-
-(* `_run` with remaining_iters := budget *)
+(* `_run` *)
 Definition run_loop (F : fops) (bld : build) (P : program) (reenter : N -> state -> rres)
-           (budget : nat) (ip : N) (s : state) : rres :=
-  match budget with
-  | O =>
-      if (code_len P <=? ip)%N then RErr EUnexpectedEndOfInput ip s
-      else
-        match bld with
-        | Debug => RStop APanic s                         (* remaining_iters -= 1 underflows *)
-        | Release =>
-            match loop F bld P reenter wrapped_fuel ip s with
-            | RErr ETimeout _ s' => RStop ADiverge s'
-            | r => r
-            end
-        end
-  | _ => loop F bld P reenter budget ip s
-  end.
+           (ip : N) (s : state) : rres :=
+  loop F bld P reenter (N.to_nat (st_rem s)) ip s.
 
-(* nesting: every level takes a FRESH budget (A-11); [depth] bounds the nesting of run_function, which the
-   call stack (2 frames per level, 256 frames) bounds by 128 in the implementation *)
-Fixpoint run_at (F : fops) (bld : build) (P : program) (budget : nat) (depth : nat) (ip : N) (s : state) : rres :=
+(* nesting: [depth] bounds the nesting of run_function, which the call stack (2 frames per level, 256 frames)
+   bounds by 128 in the implementation.
+   [legacy] = the budget rule of the pinned tree (A-11, repaired by 9ecef93): every `_run` counted down a local
+   copy of max_instr, so a nested run started with a fresh budget and left the caller's count alone. *)
+Fixpoint run_at (F : fops) (bld : build) (P : program) (legacy : bool) (max_instr : N) (depth : nat)
+         (ip : N) (s : state) : rres :=
   match depth with
   | O => RStop ADiverge s
-  | S d => run_loop F bld P (run_at F bld P budget d) budget ip s
+  | S d =>
+      if legacy then
+        let outer := st_rem s in
+        match run_loop F bld P (run_at F bld P legacy max_instr d) ip (set_rem s max_instr) with
+        | ROk s' => ROk (set_rem s' outer)
+        | RErr e ip' s' => RErr e ip' (set_rem s' outer)
+        | RStop a s' => RStop a (set_rem s' outer)
+        end
+      else run_loop F bld P (run_at F bld P legacy max_instr d) ip s
   end.
 
 Definition max_depth : nat := 130.
@@ -1623,24 +1648,39 @@ Definition outcome_of (P : program) (r : rres) : outcome * state :=
   | RStop a s => (OAbort a, s)
   end.
 
-(* Vm::run with max_instr = budget, at a given nesting allowance *)
-Definition run_depth (F : fops) (bld : build) (depth : nat) (budget : nat) (P : program) (s : state)
-  : outcome * state :=
+(* Vm::run with max_instr = budget: set the program and the budget, push the entry frame, run, and drop every
+   call frame when the run is over (d89012c; the pinned tree kept them, A-18) *)
+Definition finish (P : program) (r : rres) : outcome * state :=
+  let '(o, s) := outcome_of P r in
+  match o with
+  | OAbort _ => (o, s)
+  | _ => (o, set_calls s [])
+  end.
+
+Definition run_gen (F : fops) (bld : build) (legacy : bool) (depth : nat) (budget : nat) (P : program)
+           (s : state) : outcome * state :=
   match push_frame s (mkFrame 0 0 0 None) with
   | None => (OErr ECallStackOverflow [], s)
-  | Some s1 => outcome_of P (run_at F bld P budget depth 0 s1)
+  | Some s1 =>
+      let s2 := set_rem s1 (N.of_nat budget) in
+      (* the trace is built from the frames that are live when the error is raised *)
+      finish P (run_at F bld P legacy (N.of_nat budget) depth 0 s2)
   end.
 
 Definition run (F : fops) (bld : build) (budget : nat) (P : program) (s : state) : outcome * state :=
-  run_depth F bld max_depth budget P s.
+  run_gen F bld false max_depth budget P s.
 
-(* A run in which natives cannot re-enter the interpreter (run_function is cut off): the subject of the
-   single-level budget theorems. *)
+(* the budget rule of the pinned tree *)
+Definition run_legacy (F : fops) (bld : build) (budget : nat) (P : program) (s : state) : outcome * state :=
+  run_gen F bld true max_depth budget P s.
+
+(* A run in which natives cannot re-enter the interpreter (run_function is cut off), driven by [loop_flat]:
+   the subject of budget_monotone. *)
 Definition no_reenter (ip : N) (s : state) : rres := RStop AUnmodelled s.
 Definition run_flat (F : fops) (bld : build) (budget : nat) (P : program) (s : state) : outcome * state :=
   match push_frame s (mkFrame 0 0 0 None) with
   | None => (OErr ECallStackOverflow [], s)
-  | Some s1 => outcome_of P (run_loop F bld P no_reenter budget 0 s1)
+  | Some s1 => finish P (loop_flat F bld P no_reenter budget 0 (set_rem s1 (N.of_nat budget)))
   end.
 
 (* Vm::read_var_by_name *)
